@@ -354,6 +354,119 @@ theorem Inv.clear {pos : Nat} {q pend g} (h : Inv pos q pend g) :
       exact ⟨m', mf, List.mem_append_left _ hm', hfn, hv⟩
     · simp at hm
 
+/-! ### the tick split into its atomic actions (used by the interleaving semantics) -/
+
+/-- the locked section of `clck_tick`: the `emit` and `drop` partitions leave the queue and become
+pending -/
+theorem Inv.lockSection {pos : Nat} {q : List Trxd.TxMsg} {g : Ghost} (h : Inv pos q [] g) (fn : Nat) :
+    Inv pos (waitPart fn q)
+      ((g.ids.zip q).filter (fun p => classify fn p.2 == .emit) ++
+       (g.ids.zip q).filter (fun p => classify fn p.2 == .stale))
+      ⟨tickIds fn (g.ids.zip q), g.log⟩ := by
+  have hsnd : ((g.ids.zip q).filter (fun p => classify fn p.2 == .wait)).map Prod.snd = waitPart fn q :=
+    zip_filter_snd (fun m => classify fn m == .wait) g.ids q h.lock
+  have hids : (g.ids.zip q).map Prod.fst = g.ids := List.map_fst_zip (Nat.le_of_eq h.lock)
+  refine ⟨?_, ?_, h.fresh, ⟨h.spec.ids_distinct, ?_, h.spec.on_time, h.spec.stale_passed⟩⟩
+  · rw [← hsnd]; simp [tickIds]
+  · intro p hp
+    simp only [List.mem_append] at hp
+    rcases hp with hp | hp | hp
+    · rw [← hsnd] at hp
+      simp only [tickIds, zip_map_fst_snd, List.mem_filter] at hp
+      exact h.tagged p (List.mem_append_left _ hp.1)
+    · exact h.tagged p (List.mem_append_left _ (List.mem_filter.mp hp).1)
+    · exact h.tagged p (List.mem_append_left _ (List.mem_filter.mp hp).1)
+  · have hacc := h.spec.accounted
+    have hpart := (filter_partition (fun p : Nat × Trxd.TxMsg => classify fn p.2) (g.ids.zip q)).map Prod.fst
+    rw [hids] at hpart
+    rw [List.perm_iff_count] at hacc hpart ⊢
+    intro a
+    have h1 := hacc a
+    have h2 := hpart a
+    simp only [tickIds, List.count_append, List.map_append, List.map_nil, List.append_nil] at h1 h2 ⊢
+    omega
+
+theorem Inv.emitOne {pos : Nat} {q : List Trxd.TxMsg} {g : Ghost} {p : Nat × Trxd.TxMsg}
+    {pend : List (Nat × Trxd.TxMsg)} (h : Inv pos q (p :: pend) g) {fn : Nat} (hc : classify fn p.2 = .emit) :
+    Inv pos q pend ⟨g.ids, g.log ++ [Event.emitted p.1 fn]⟩ := by
+  have hacc_p : Event.accepted p.1 p.2 ∈ g.log := h.tagged p (by simp)
+  refine ⟨h.lock, ?_, ?_, ⟨?_, ?_, ?_, ?_⟩⟩
+  · intro p' hp'
+    apply List.mem_append_left
+    apply h.tagged
+    simp only [List.mem_append, List.mem_cons] at hp' ⊢
+    rcases hp' with hp' | hp'
+    · exact .inl hp'
+    · exact .inr (.inr hp')
+  · intro id hid
+    simp only [accIds_append, List.mem_append] at hid
+    rcases hid with hid | hid
+    · exact h.fresh id hid
+    · simp [accIds, Event.accId?] at hid
+  · simp only [accIds_append]
+    simp only [accIds, List.filterMap_cons, Event.accId?, List.filterMap_nil, List.append_nil]
+    exact h.spec.ids_distinct
+  · have hacc := h.spec.accounted
+    rw [List.perm_iff_count] at hacc ⊢
+    intro a
+    have h1 := hacc a
+    simp only [outIds_append, accIds_append, List.count_append, List.map_cons, List.count_cons] at h1 ⊢
+    simp only [outIds, accIds, Event.outId?, Event.accId?, List.filterMap_cons, List.filterMap_nil,
+      List.count_nil, List.count_cons] at h1 ⊢
+    omega
+  · intro id fn' hm
+    simp only [List.mem_append, List.mem_singleton] at hm
+    rcases hm with hm | hm
+    · obtain ⟨m', hm', hfn⟩ := h.spec.on_time id fn' hm
+      exact ⟨m', List.mem_append_left _ hm', hfn⟩
+    · cases hm
+      exact ⟨p.2, List.mem_append_left _ hacc_p, classify_emit hc⟩
+  · intro id fn' hm
+    simp only [List.mem_append, List.mem_singleton, reduceCtorEq, or_false] at hm
+    obtain ⟨m', mf, hm', hfn, hv⟩ := h.spec.stale_passed id fn' hm
+    exact ⟨m', mf, List.mem_append_left _ hm', hfn, hv⟩
+
+theorem Inv.staleOne {pos : Nat} {q : List Trxd.TxMsg} {g : Ghost} {p : Nat × Trxd.TxMsg}
+    {pend : List (Nat × Trxd.TxMsg)} (h : Inv pos q (p :: pend) g) {fn : Nat} (hc : classify fn p.2 = .stale) :
+    Inv pos q pend ⟨g.ids, g.log ++ [Event.stale p.1 fn]⟩ := by
+  have hacc_p : Event.accepted p.1 p.2 ∈ g.log := h.tagged p (by simp)
+  refine ⟨h.lock, ?_, ?_, ⟨?_, ?_, ?_, ?_⟩⟩
+  · intro p' hp'
+    apply List.mem_append_left
+    apply h.tagged
+    simp only [List.mem_append, List.mem_cons] at hp' ⊢
+    rcases hp' with hp' | hp'
+    · exact .inl hp'
+    · exact .inr (.inr hp')
+  · intro id hid
+    simp only [accIds_append, List.mem_append] at hid
+    rcases hid with hid | hid
+    · exact h.fresh id hid
+    · simp [accIds, Event.accId?] at hid
+  · simp only [accIds_append]
+    simp only [accIds, List.filterMap_cons, Event.accId?, List.filterMap_nil, List.append_nil]
+    exact h.spec.ids_distinct
+  · have hacc := h.spec.accounted
+    rw [List.perm_iff_count] at hacc ⊢
+    intro a
+    have h1 := hacc a
+    simp only [outIds_append, accIds_append, List.count_append, List.map_cons, List.count_cons] at h1 ⊢
+    simp only [outIds, accIds, Event.outId?, Event.accId?, List.filterMap_cons, List.filterMap_nil,
+      List.count_nil, List.count_cons] at h1 ⊢
+    omega
+  · intro id fn' hm
+    simp only [List.mem_append, List.mem_singleton, reduceCtorEq, or_false] at hm
+    obtain ⟨m', hm', hfn⟩ := h.spec.on_time id fn' hm
+    exact ⟨m', List.mem_append_left _ hm', hfn⟩
+  · intro id fn' hm
+    simp only [List.mem_append, List.mem_singleton] at hm
+    rcases hm with hm | hm
+    · obtain ⟨m', mf, hm', hfn, hv⟩ := h.spec.stale_passed id fn' hm
+      exact ⟨m', mf, List.mem_append_left _ hm', hfn, hv⟩
+    · cases hm
+      obtain ⟨mf, hmf, hv⟩ := classify_stale hc
+      exact ⟨p.2, mf, List.mem_append_left _ hacc_p, hmf, hv⟩
+
 /-! ### every operation preserves the invariant -/
 
 /-- shape of the queue of transceiver `j` after one operation -/
@@ -387,9 +500,9 @@ theorem step_jump_queue (w : World) (fn j : Nat) : queueOf (step w (.jump fn)).w
   simp only [step, jump]
   split <;> rfl
 
-theorem ghostStep_inv {j pos : Nat} {w : World} (op : Op) {g : Ghost}
-    (h : Inv pos (queueOf w j) [] g) :
-    Inv (pos + 1) (queueOf (step w op).world j) [] (ghostStep j pos w op (step w op).world g) := by
+theorem ghostStep_inv {j pos : Nat} {w : World} (op : Op) {g : Ghost} {pend : List (Nat × Trxd.TxMsg)}
+    (h : Inv pos (queueOf w j) pend g) :
+    Inv (pos + 1) (queueOf (step w op).world j) pend (ghostStep j pos w op (step w op).world g) := by
   cases op with
   | data i d =>
     simp only [ghostStep, step]
